@@ -18,7 +18,15 @@ RULE = (
     "wrong, non-int), destinations (valid/unknown/malformed) and scripted C-STORE sub-operation statuses. About a third of "
     "the cases are 'clean' scripts (documented handler contract only) so the search continues behind the known findings. "
     "Non-trivial = multi-response script with >=2 consumed items of different status classes, or an exception/malformed/"
-    "invalid value anywhere, or (single-response services) anything but a plain in-range int; distinct = distinct case."
+    "invalid value anywhere, or (single-response services) anything but a plain in-range int; distinct = distinct case. "
+    "Family 'substore' (requestor-side Storage SCP, Association._c_store_scp): a retrieve REQUESTOR association (C-GET 2/3, "
+    "C-MOVE 1/3 of the cases) on which one storage SOP class was accepted with the SCP role on 1..4 contexts with pairwise "
+    "different transfer syntaxes (arbitrary distinct odd context IDs, in ID order or not), optionally another storage SOP "
+    "class and the same SOP class once more without the SCP role; 1..3 C-STORE sub-operation requests (distinct message "
+    "IDs, boundary biased) arrive as P-DATA on any of the fitting contexts (about 1 in 5 non-clean requests instead on a "
+    "never-accepted ID, on the other SOP class's context or on the context without the SCP role) and the EVT_C_STORE "
+    "handler behaves per request as the status-only grammar says (int/Dataset/bad values/raise). Non-trivial there = a "
+    "request on a context other than the first one accepted for its SOP class, or on a non-fitting context."
 )
 ASSUMPTIONS = [
     "Pending = status 0xFF00/0xFF01 (PS3.7 Annex C); for services with a single response (C-ECHO, C-STORE, DIMSE-N) any "
@@ -30,6 +38,11 @@ ASSUMPTIONS = [
     "over 'returning or yielding any values' and status values 'known, unknown, out of range'",
     "C-STORE sub-operation requests of C-GET (command field 0x0001 on another context) are not responses and are ignored",
     "engines/syncassoc.py: replacing dul.send_pdu by a recorder does not change what the service layer sends",
+    "substore family: 'received as SCP' includes the Storage SCP the C-GET/C-MOVE requestor runs on its own association; "
+    "responses are attributed to requests by order (the requests are served one after the other); a C-STORE request on an "
+    "accepted context that does not fit it (other abstract syntax / SCP role not negotiated) must still get exactly one "
+    "response on that context or a local A-ABORT; on a never-accepted context ID pynetdicom's documented reaction is an "
+    "A-ABORT, after which no further response may be sent; the handler's event.context must be the request's context",
 ]
 SHARDS = {"quick": 1, "thorough": 16}
 MIN_NONTRIVIAL = 50
@@ -183,7 +196,109 @@ def check_final(ctx, case):
     # a final response was sent although pynetdicom also aborted: fine for C20 (nothing after the final DIMSE message)
 
 
-CHECKS = {"final": check_final}
+def _item_kind(it):
+    c = R.item_class(it, "C-STORE")
+    if c.startswith("exception("):
+        return "exception"
+    if c in ("int", "ds-status", "ds-status+optional", "ds-status+command-element"):
+        st = it["st"]
+        return c + ":" + R.category(st["v"] if st["t"] == "int" else st["status"])
+    return c
+
+
+def check_substore(ctx, case):
+    """C-STORE sub-operation requests answered by the retrieve requestor's own Storage SCP (Association._c_store_scp):
+    one response per request, carrying the request's message ID, on the request's context; the handler's event.context
+    is the context the request arrived on."""
+    obs = G.run_substore_case(case)
+    rqs = case["rqs"]
+    accepted = {e[0] for e in case["layout"]}
+    same = [e for e in case["layout"] if e[1] == "store-ct" and e[3]]
+    pseudo = [{"svc": "store-ct", "items": r["items"], "pre": r.get("pre")} for r in rqs]
+    cls = ["family:substore", "C-STORE", f"via:{case['via']}", f"same-sop-contexts:{len(same)}", f"requests:{len(rqs)}"]
+    if len({e[2] for e in same}) >= 2:
+        cls.append("same-sop-different-ts")
+    kinds = set()
+    for r in rqs:
+        cls.append("where:" + r["where"])
+        if r["where"] == "ok" and len(same) >= 2:
+            cls.append("on-first-context" if r["cid"] == min(e[0] for e in same) else "on-later-context")
+        kinds.add(_item_kind(r["items"][0]))
+        if r.get("pre"):
+            cls.append("raise-before")
+        if r["msg_id"] in (0, 65535):
+            cls.append("msgid-boundary")
+    cls += sorted("item:" + k for k in kinds)
+    rsps = obs.store_responses()
+    cls.append("outcome:" + ("local-abort" if obs.aborted_locally else f"responses:{min(len(rsps), 4)}"))
+    # non-trivial = the SOP class is accepted on >= 2 contexts and a request arrives on one that is not the first, or
+    # a request arrives on a context that does not fit it
+    nt = any(r["where"] != "ok" for r in rqs) or (len(same) >= 2 and any(r["cid"] != min(e[0] for e in same) for r in rqs))
+    ctx.note(case, nontrivial=nt, classes=sorted(set(cls)))
+    txt = (
+        f"via={case['via']} layout={case['layout']} requests={[(r['cid'], r['msg_id'], r['where']) for r in rqs]} "
+        f"responses={[(sorted(set(m.cx_ids)), m.rsp_to, None if m.status is None else hex(m.status)) for m in rsps]} "
+        f"handler_saw={obs.seen} local_abort={obs.aborted_locally}"
+    )
+    if obs.raised is not None:
+        ctx.fail("exception-escapes", f"substore:{sig.exc_key(obs.raised)}", f"send_c_{case['via']} raised: {sig.exc_text(obs.raised)}\n{txt}")
+    if not obs.request_sent:
+        from vlib.core import HarnessError
+
+        raise HarnessError(f"the retrieve request was not sent: {txt}")
+    for m in obs.others():
+        ctx.fail("unexpected-message", f"substore:{m.error or hex(m.field or 0)}", f"unexpected message sent by the retrieve requestor\n{txt}")
+        return
+    for m in rsps:
+        if m.error or m.cmd is None or m.status is None:
+            ctx.fail("unexpected-message", f"substore:{m.error or 'no-status'}", f"malformed C-STORE response\n{txt}")
+            return
+
+    # the handler is told the context the request arrived on
+    for mid, rq_cx, ev_cx, _ts in obs.seen:
+        if ev_cx != rq_cx:
+            ctx.fail("handler-context", "substore:C-STORE", f"handler for request {mid} received on context {rq_cx} got event.context {ev_cx}\n{txt}")
+            break
+    for r in rqs:
+        if obs.logs[r["msg_id"]].calls > 1:
+            ctx.fail("handler-calls", f"substore:{obs.logs[r['msg_id']].calls}", f"handler invoked more than once for request {r['msg_id']}\n{txt}")
+
+    # requests the SCP must answer: all up to (excluding) the first one on a context ID that was never accepted - pynetdicom
+    # aborts the association there (documented in _c_store_scp; the peer sees the A-ABORT), nothing may follow
+    expect = []
+    for r in rqs:
+        if r["cid"] not in accepted:
+            break
+        expect.append(r)
+    cut = len(expect) < len(rqs)
+    for i, (r, p) in enumerate(zip(expect, pseudo)):
+        if i >= len(rsps):
+            break
+        m = rsps[i]
+        log = obs.logs[r["msg_id"]]
+        if m.rsp_to != r["msg_id"]:
+            why = "ds-status+command-element" if overrides_command_element(p, log) else f"status-only:{cause_of(p, log)}"
+            ctx.fail("message-id", why, f"response #{i + 1}: MessageIDBeingRespondedTo={m.rsp_to}, request MessageID={r['msg_id']}\n{txt}")
+            break
+        if set(m.cx_ids) != {r["cid"]}:
+            ctx.fail("context-id", "substore:C-STORE", f"response #{i + 1} on contexts {sorted(set(m.cx_ids))}, request {r['msg_id']} arrived on {r['cid']}\n{txt}")
+            break
+    if len(rsps) > len(expect):
+        if not cut or obs.aborted_locally:
+            ctx.fail("response-after-final", f"substore:C-STORE:{'after-abort' if cut else 'extra'}", f"{len(rsps)} C-STORE responses for {len(expect)} answerable requests\n{txt}")
+        # (no abort on the never-accepted context ID: what follows cannot be judged from the property statement)
+    elif len(rsps) < len(expect):
+        r, p = expect[len(rsps)], pseudo[len(rsps)]
+        cause = cause_of(p, obs.logs[r["msg_id"]])
+        if obs.aborted_locally:
+            ctx.fail("final-missing-local-abort", f"substore:{r['where']}:{cause}", f"pynetdicom aborted instead of answering request {r['msg_id']}\n{txt}")
+        else:
+            ctx.fail("final-missing", f"substore:C-STORE:{r['where']}:{cause}:nothing-sent", f"request {r['msg_id']} got no response and there was no abort\n{txt}")
+    if cut and not obs.aborted_locally and len(rsps) <= len(expect):
+        ctx.fail("final-missing", "substore:C-STORE:unaccepted:nothing-sent", f"request on a never-accepted context got neither a response nor an A-ABORT\n{txt}")
+
+
+CHECKS = {"final": check_final, "substore": check_substore}
 
 
 def run(ctx):
@@ -197,4 +312,5 @@ def run(ctx):
     ctx.hyp("final", S.find_one("find-repo"), n_find // 5)  # the service with the non-final 0xB001
     ctx.hyp("final", S.single, n_single)
     ctx.hyp("final", S.retrieve, n_ret)
+    ctx.hyp("substore", S.substore, 600 if ctx.quick else 2500)
     ctx.extra["services_in_catalogue"] = len(G.SERVICES)
